@@ -12,6 +12,9 @@ def parseResp (tok : String) : Option RespX :=
   | ["c", ft, blk, dec, fid, size, prev, hdr] =>
     some { r := { isCFilter := true, ftypeOk := ft == "1", blk := nat! blk, decodes := dec == "1", fid := nat! fid, size := nat! size },
            prev := nat! prev, hdr := nat! hdr }
+  | ["c", ft, blk, dec, fid, size, prev, hdr, _peer] =>
+    some { r := { isCFilter := true, ftypeOk := ft == "1", blk := nat! blk, decodes := dec == "1", fid := nat! fid, size := nat! size },
+           prev := nat! prev, hdr := nat! hdr }
   | _ => none
 
 def parseBatch : String → Option Batch
@@ -61,7 +64,12 @@ def parseObs (s : String) : Option Obs :=
       let (ce, rest) := bracket rest
       match rest with
       | "db" :: rest =>
-        let (de, _) := bracket rest
+        let (de, rest) := bracket rest
+        let puts : List (Nat × Nat) := match rest with
+          | "puts" :: rest => (bracket rest).1.map (fun t => match t.splitOn ":" with
+              | [b, f] => (nat! b, nat! f)
+              | _ => (0, 0))
+          | _ => []
         let result : Option ObsResult :=
           match res.splitOn ":" with
           | ["ret", fid, v] => some (.ret (nat! fid) (v == "1"))
@@ -75,7 +83,7 @@ def parseObs (s : String) : Option Obs :=
         match result, range with
         | some r, some g =>
           if pr.all (fun p => p == "n" || p == "p" || p == "f") then
-            some { result := r, prog := pr.map parseProg, range := g, cache := ce.map parseCE, db := de.map parseDE }
+            some { result := r, prog := pr.map parseProg, range := g, cache := ce.map parseCE, db := de.map parseDE, puts := puts }
           else none
         | _, _ => none
       | _ => none
@@ -184,8 +192,15 @@ def runCase : CaseFn := fun c => Id.run do
         if !diverged then
           let m := getCFilter (hashingOf xs) st call
           st := m.st
+          -- what the model hands to the batch writer: the accepted responses, in order
+          let mputs := if persist then
+              (((call.resps.take m.prog.length).zip m.prog).filter (fun rp => rp.2 != .none)).map (fun rp => (rp.1.blk, rp.1.fid))
+            else []
           if showModel m != showImpl o then
             out := out.push s!"DIFF C05 case {c.num} line {ln}: impl=<{(showImpl o).take 300}> model=<{(showModel m).take 300}>"
+            diverged := true
+          else if mputs != o.puts then
+            out := out.push s!"DIFF C05 case {c.num} line {ln}: put log impl={(toString o.puts).take 200} model={(toString mputs).take 200}"
             diverged := true
       | _, _ =>
         out := out.push s!"DIFF C05 case {c.num} line {ln}: unparsable line <{(line.take 200).toString}>"
